@@ -39,7 +39,10 @@ def red(kind, a: Arr, sort=RS):
 
 
 def ew(name, f, a: Arr, elem="real"):
-    return Arr(a.n, elem, lambda i, _at=a.at, _f=f: _f(_at(i)), f"{name}({a.key})", a.meta, a.facts)
+    meta = dict(a.meta)
+    if "lit" in meta:
+        meta["lit"] = [f(t) for t in meta["lit"]]
+    return Arr(a.n, elem, lambda i, _at=a.at, _f=f: _f(_at(i)), f"{name}({a.key})", meta, a.facts)
 
 
 def as_arr_or_scalar(v):
@@ -256,6 +259,8 @@ class Registry:
             return [I(k) for k in range(lo, hi)]
         if isinstance(it, Str):
             return [Str(c) for c in it.v]
+        if isinstance(it, Arr) and "lit" in it.meta:
+            return [Z(t, "bool" if it.elem == "bool" else "real") for t in it.meta["lit"]]
         return None
 
     def enter_context(self, i, cm, item):
@@ -360,7 +365,16 @@ def arr_binop(i, op, a, b, n):
             f = lambda k: POW(ea(k), eb(k))  # noqa: E731
     elif sym == "%":
         f = lambda k: FMOD(ea(k), eb(k))  # noqa: E731
-    return Arr(nn, "real", f, kkey, meta)
+    out = Arr(nn, "real", f, kkey, meta)
+    la = a.meta.get("lit") if isinstance(a, Arr) else None
+    lb = b.meta.get("lit") if isinstance(b, Arr) else None
+    if (la is not None or not isinstance(a, Arr)) and (lb is not None or not isinstance(b, Arr)) and (la is not None or lb is not None):
+        m = len(la if la is not None else lb)
+        if (la is None or len(la) == m) and (lb is None or len(lb) == m):
+            out.meta = dict(out.meta, lit=[z3.simplify(f(z3.IntVal(j))) for j in range(m)])
+    else:
+        out.meta = {k: v for k, v in out.meta.items() if k != "lit"}
+    return out
 
 
 ROWOP = {}
@@ -402,7 +416,15 @@ def arr_compare(i, op, a, b, n):
          ">=": lambda k: ea(k) >= eb(k), "==": lambda k: ea(k) == eb(k), "!=": lambda k: ea(k) != eb(k)}[sym]
     ka = a.key if isinstance(a, Arr) else skey(a)
     kb = b.key if isinstance(b, Arr) else skey(b)
-    return Arr(nn, "bool", f, f"({ka}{sym}{kb})", a.meta if isinstance(a, Arr) else b.meta)
+    meta = dict(a.meta if isinstance(a, Arr) else b.meta)
+    la = a.meta.get("lit") if isinstance(a, Arr) else None
+    lb = b.meta.get("lit") if isinstance(b, Arr) else None
+    if (la is not None or not isinstance(a, Arr)) and (lb is not None or not isinstance(b, Arr)) and (la is not None or lb is not None):
+        m = len(la if la is not None else lb)
+        meta["lit"] = [z3.simplify(f(z3.IntVal(j))) for j in range(m)]
+    else:
+        meta.pop("lit", None)
+    return Arr(nn, "bool", f, f"({ka}{sym}{kb})", meta)
 
 
 SELN = uf("sel_len", Misc, IS, IS)           # length of a generic selection idx applied to an axis of length n
@@ -419,6 +441,17 @@ def arr_getitem(i, a: Arr, idx, n):
     """selection along the leading axis: every kind of index is `take` with an index map"""
     if isinstance(idx, Arr) and idx.elem == "int":
         return take(a, idx.n, idx.at, f"take({a.key},{idx.key})")
+    if isinstance(idx, Arr) and idx.elem == "bool" and "lit" in idx.meta and "lit" in a.meta and len(idx.meta["lit"]) == len(a.meta["lit"]) \
+            and all(z3.is_true(z3.simplify(m)) or z3.is_false(z3.simplify(m)) for m in idx.meta["lit"]):
+        # literal array selected by a literal mask: computed exactly
+        sel_terms = [t for t, m in zip(a.meta["lit"], idx.meta["lit"]) if z3.is_true(z3.simplify(m))]
+
+        def at_sel(kk, _it=sel_terms, _b=(a.elem == "bool")):
+            e = _it[-1] if _it else (z3.BoolVal(False) if _b else z3.RealVal(0))
+            for j in range(len(_it) - 2, -1, -1):
+                e = z3.If(kk == j, _it[j], e)
+            return e
+        return Arr(z3.IntVal(len(sel_terms)), a.elem, at_sel, f"litsel({a.key},{idx.key})", dict(a.meta, lit=sel_terms))
     if isinstance(idx, Arr) and idx.elem == "bool":
         i.path.ghost["last_mask"] = idx
         cnt = red("count", idx, IS)
@@ -452,8 +485,24 @@ def arr_getitem(i, a: Arr, idx, n):
         if z3.is_int_value(kk) and kk.as_long() < 0:
             k = a.n + k
         i.implicit_exception(z3.And(k >= 0, k < a.n), "IndexError", n)
-        e = a.at(k)
+        kk2 = z3.simplify(k)
+        e = a.meta["lit"][kk2.as_long()] if ("lit" in a.meta and z3.is_int_value(kk2) and 0 <= kk2.as_long() < len(a.meta["lit"])) else a.at(k)
         return Z(e, {"real": "real", "bool": "bool", "int": "int"}[a.elem])
+    if isinstance(idx, Tup) and "rows" in a.meta and len(idx.items) == 2 and isinstance(idx.items[0], Tup) \
+            and idx.items[0].items and isinstance(idx.items[0].items[0], Str) and idx.items[0].items[0].v == "<slice>" \
+            and all(isinstance(t, NoneV) for t in idx.items[0].items[1:]) and isinstance(idx.items[1], Z):
+        # stack([...literal rows...])[:, j]: computed exactly
+        j = z3.simplify(to_int(idx.items[1]))
+        rows = a.meta["rows"]
+        if z3.is_int_value(j) and all(0 <= j.as_long() < len(r.meta["lit"]) for r in rows):
+            terms = [r.meta["lit"][j.as_long()] for r in rows]
+
+            def at_col(kk, _it=terms):
+                e = _it[-1] if _it else z3.RealVal(0)
+                for jj in range(len(_it) - 2, -1, -1):
+                    e = z3.If(kk == jj, _it[jj], e)
+                return e
+            return Arr(z3.IntVal(len(terms)), "real", at_col, f"col({a.key},{j})", {kk: v for kk, v in a.meta.items() if kk != "rows"} | {"lit": terms})
     if isinstance(idx, Tup):
         # x[..., mask] / x[:, mask]: column selection - abstract
         key = f"cols({a.key},{skey(idx.items[-1])})"
@@ -556,12 +605,16 @@ def install_arrays(reg: Registry):
     @H("arr.any")
     def arr_any(i, a, k, n):
         x = a[0]
+        if "lit" in x.meta and x.elem == "bool":
+            return B(z3.Or(list(x.meta["lit"]) + [z3.BoolVal(False)]))
         v = z3.Const(f"any<{x.key}>", BS)
         return B(v)
 
     @H("arr.all")
     def arr_all(i, a, k, n):
         x = a[0]
+        if "lit" in x.meta and x.elem == "bool":
+            return B(z3.And(list(x.meta["lit"]) + [z3.BoolVal(True)]))
         v = z3.Const(f"all<{x.key}>", BS)
         return B(v)
 
@@ -624,6 +677,20 @@ def install_arrays(reg: Registry):
     @H("xp.any")
     def xp_any(i, a, k, n):
         return B(z3.Const(f"any<{a[0].key}>", BS))
+
+    @H("xp.stack")
+    def xp_stack(i, a, k, n):
+        parts = a[0].items if isinstance(a[0], (PyList, Tup)) else None
+        if parts is not None and parts and all(isinstance(t, Arr) and "lit" in t.meta and t.elem == "real" for t in parts):
+            rows = [z3.Const(fresh("stack_row"), Row) for _ in parts]
+
+            def at(kk, _r=rows):
+                e = _r[-1]
+                for j in range(len(_r) - 2, -1, -1):
+                    e = z3.If(kk == j, _r[j], e)
+                return e
+            return Arr(z3.IntVal(len(parts)), "row", at, "stack(" + ",".join(t.key for t in parts) + ")", {"rows": list(parts)})
+        raise Unsupported("xp.stack of non-literal arrays")
 
     @H("xp.concatenate")
     def concatenate(i, a, k, n):
@@ -695,12 +762,15 @@ def install_arrays(reg: Registry):
         if isinstance(x, (PyList, Tup)):
             items = x.items
             if all(isinstance(t, Z) for t in items):
-                def at(kk, _it=items):
-                    e = to_real(_it[-1]) if _it else z3.RealVal(0)
+                boolean = bool(items) and all(t.kind == "bool" for t in items)
+                terms = [t.e if boolean else to_real(t) for t in items]
+
+                def at(kk, _it=terms, _b=boolean):
+                    e = _it[-1] if _it else (z3.BoolVal(False) if _b else z3.RealVal(0))
                     for j in range(len(_it) - 2, -1, -1):
-                        e = z3.If(kk == j, to_real(_it[j]), e)
+                        e = z3.If(kk == j, _it[j], e)
                     return e
-                return Arr(z3.IntVal(len(items)), "real", at, "lit(" + ",".join(skey(t) for t in items) + ")")
+                return Arr(z3.IntVal(len(items)), "bool" if boolean else "real", at, "lit(" + ",".join(skey(t) for t in items) + ")", {"lit": terms})
             return Sym(z3.Const(fresh("arr_of_list"), Misc), "arr_opaque")
         if isinstance(x, Sym):
             return x
